@@ -231,6 +231,32 @@ func (P *Prog) factsFor(b *ssa.BasicBlock, x ssa.Value) rangeFacts {
 
 func (P *Prog) addFact(rf *rangeFacts, cond ssa.Value, truth bool, x ssa.Value) {
 	switch c := cond.(type) {
+	case *ssa.Phi:
+		// a conjunction or disjunction hoisted into a local (`inRange := t >= lo && t < hi; if !inRange { return err }`)
+		// is a phi of booleans. Known true: if all but one edge are the constant false, control came through that edge,
+		// so the guards of its predecessor hold and its value is true. Known false, dually, for all-but-one constant true.
+		var live ssa.Value
+		var livePred *ssa.BasicBlock
+		nLive := 0
+		for i, e := range c.Edges {
+			if k, isK := constBool(e); isK && k != truth {
+				continue
+			}
+			live, livePred = e, c.Block().Preds[i]
+			nLive++
+		}
+		if nLive != 1 {
+			return
+		}
+		for _, gd := range append(guardsOf(livePred), guardsOfEdge(livePred, c.Block())...) {
+			if gd.If.Cond != cond {
+				P.addFact(rf, gd.If.Cond, gd.True, x)
+			}
+		}
+		if _, isK := constBool(live); !isK {
+			P.addFact(rf, live, truth, x)
+		}
+		return
 	case *ssa.UnOp:
 		if c.Op == token.NOT {
 			P.addFact(rf, c.X, !truth, x)
